@@ -4,7 +4,7 @@
    A region is the inclusive byte range [b, e] of an HTTP range request (Go: struct{ b, e int64 }).
    Go int64 is modelled by unbounded Z (sizes/offsets below 2^62; no wrap-around is reachable from
    blob sizes and chunk sizes that fit int64 with their sum). *)
-From Coq Require Import List ZArith Bool.
+From Coq Require Import List ZArith Bool Sorted.
 Import ListNotations.
 Open Scope Z_scope.
 
